@@ -35,6 +35,8 @@ def build_exts():
     for name, pkg, srcs in (("VmMngr", "miasm.jitter", ["vm_mngr.c", "vm_mngr_py.c", "bn.c"]),
                             ("JitCore_x86", "miasm.jitter.arch", ["JitCore.c", "vm_mngr.c", "vm_mngr_py.c", "op_semantics.c", "bn.c",
                                                                  "arch/JitCore_x86.c"]),
+                            ("JitCore_arm", "miasm.jitter.arch", ["JitCore.c", "vm_mngr.c", "vm_mngr_py.c", "op_semantics.c", "bn.c",
+                                                                 "arch/JitCore_arm.c"]),
                             ("Jitgcc", "miasm.jitter", ["Jitgcc.c", "bn.c"])):
         so = os.path.join(d, name + ext)
         p = subprocess.run(["gcc", "-O1", "-w", "-DNDEBUG", "-shared", "-fPIC", "-I", inc, "-I", JIT, "-o", so] +
@@ -52,7 +54,7 @@ def build_exts():
         sys.modules[pkg + "." + name] = mod
         setattr(sys.modules[pkg], name, mod)
     _BUILD.update({"pid": os.getpid(), "dir": d, "libs": [mods["VmMngr"][1], mods["JitCore_x86"][1]],
-                   "cache": os.path.join(d, "cache")})
+                   "libs_arm": [mods["VmMngr"][1], mods["JitCore_arm"][1]], "cache": os.path.join(d, "cache")})
     os.mkdir(_BUILD["cache"])
     return _BUILD
 
